@@ -46,6 +46,8 @@ pub struct Stats {
     pub cross_thread_frees: u32,
     pub reads: u32,
     pub writes: u32,
+    pub stale_loads: u32,
+    pub loads_with_a_choice: u32,
 }
 
 #[derive(Clone, Debug)]
@@ -54,6 +56,33 @@ pub struct Violation {
     pub kind: &'static str,
     pub detail: String,
 }
+
+/// one store in the modification order of an atomic location
+#[derive(Clone, Debug)]
+struct StoreRec {
+    val: usize,
+    wt: usize,
+    epoch: u32,
+    /// what an acquire load that reads THIS store synchronises with (release store, or release sequence continued by RMWs)
+    rel: Option<VC>,
+}
+struct Loc {
+    rel: Option<VC>,
+    last_write: (usize, u32),
+    /// modification order (values the location has held during this execution, oldest first)
+    hist: Vec<StoreRec>,
+    /// per thread: index of the newest store it has read or written (coherence: it can never read an older one again)
+    seen: [usize; MAXT],
+}
+impl Loc {
+    fn new(init: usize) -> Loc {
+        Loc { rel: None, last_write: (0, 0), hist: vec![StoreRec { val: init, wt: 0, epoch: 0, rel: None }], seen: [0; MAXT] }
+    }
+}
+
+/// how many loads per execution may return a value that is not the newest in modification order (0 = sequentially
+/// consistent values only)
+pub static MAX_STALE: AtomicU32 = AtomicU32::new(1);
 
 pub struct Exec {
     nthreads: usize,
@@ -69,7 +98,8 @@ pub struct Exec {
     budget: u64,
     aborted: bool,
     clocks: [VC; MAXT],
-    locs: Vec<(Option<VC>, (usize, u32))>,
+    locs: Vec<Loc>,
+    stale_used: u32,
     blocks: Vec<Block>,
     pub violations: Vec<Violation>,
     pub stats: Stats,
@@ -281,28 +311,33 @@ fn yield_point() {
     }
 }
 
-pub fn after(id: &AtomicU32, addr: usize, kind: OpKind, so: Ordering, fo: Ordering, old: usize, new: usize) {
+/// records the operation; returns the value the operation observes (`old`, except that a plain load may be given an older
+/// value of the location that the C11 model still allows it to read)
+pub fn after(id: &AtomicU32, addr: usize, kind: OpKind, so: Ordering, fo: Ordering, old: usize, new: usize) -> usize {
     if !in_model_thread() {
-        return;
+        return old;
     }
-    let Some(_g) = RtGuard::enter() else { return };
+    let Some(_g) = RtGuard::enter() else { return old };
     let t = tid();
     let mut g = lock();
-    let Some(ex) = g.as_mut() else { return };
+    let Some(ex) = g.as_mut() else { return old };
+    let mut observed = old;
     ex.stats.atomic_ops += 1;
     let mut lid = id.load(Ordering::Relaxed) as usize;
-    if lid == 0 {
-        ex.locs.push((None, (t, 0)));
-        lid = ex.locs.len();
-        id.store(lid as u32, Ordering::Relaxed);
-    }
-    if lid > ex.locs.len() {
-        // id left over from an earlier execution
-        ex.locs.push((None, (t, 0)));
+    if lid == 0 || lid > ex.locs.len() || kind == OpKind::GetMut && false {
+        // first tracked access in this execution (or an id left over from an earlier one): the value it had before
+        // this operation is the initial store, which happens-before everything tracked
+        ex.locs.push(Loc::new(old));
         lid = ex.locs.len();
         id.store(lid as u32, Ordering::Relaxed);
     }
     let li = lid - 1;
+    if kind != OpKind::GetMut && ex.locs[li].hist.last().map_or(true, |r| r.val != old) {
+        // the location was changed outside the tracked threads (or the id belongs to a recycled address): resynchronise
+        let mut l = Loc::new(old);
+        l.last_write = ex.locs[li].last_write;
+        ex.locs[li] = l;
+    }
     if let Some(tr) = ex.trace.as_mut() {
         tr.push(format!("T{} {:?} loc{} {:?}/{:?} {:#x}->{:#x}", t, kind, lid, so, fo, old, new));
     }
@@ -315,41 +350,80 @@ pub fn after(id: &AtomicU32, addr: usize, kind: OpKind, so: Ordering, fo: Orderi
     }
     match kind {
         OpKind::Load => {
+            // which stores may this load read? Not one older than a store that happens-before the load, and not one older
+            // than what this thread has already observed (coherence); anything newer is allowed by the C11 model.
+            let last = ex.locs[li].hist.len() - 1;
+            let mut lo = ex.locs[li].seen[t];
+            for j in (lo..=last).rev() {
+                let r = &ex.locs[li].hist[j];
+                if r.epoch <= ex.clocks[t][r.wt] {
+                    lo = lo.max(j);
+                    break;
+                }
+            }
+            let mut pick = last;
+            if lo < last {
+                ex.stats.loads_with_a_choice += 1;
+                if ex.stale_used < MAX_STALE.load(Ordering::Relaxed) {
+                    let n = last - lo + 1;
+                    let c = (ex.schedule.get(ex.pos).copied().unwrap_or(0) as usize) % n;
+                    ex.pos += 1;
+                    ex.decisions.push((n.min(255) as u8, c as u8));
+                    if c != 0 {
+                        pick = last - c;
+                        ex.stale_used += 1;
+                        ex.stats.stale_loads += 1;
+                        if let Some(tr) = ex.trace.as_mut() {
+                            tr.push(format!("   T{} load of loc{} reads the older value {:#x} ({} stores back; newest is {:#x})", t, lid, ex.locs[li].hist[pick].val, c, old));
+                        }
+                    }
+                }
+            }
+            ex.locs[li].seen[t] = pick;
+            observed = ex.locs[li].hist[pick].val;
             if acq(so) {
-                if let Some(r) = ex.locs[li].0 {
+                if let Some(r) = ex.locs[li].hist[pick].rel {
                     join(&mut ex.clocks[t], &r);
                 }
             }
         }
         OpKind::Store => {
-            ex.locs[li].0 = if rel(so) { Some(ex.clocks[t]) } else { None };
-            ex.locs[li].1 = (t, ex.clocks[t][t]);
+            ex.locs[li].rel = if rel(so) { Some(ex.clocks[t]) } else { None };
+            ex.locs[li].last_write = (t, ex.clocks[t][t]);
+            let r = StoreRec { val: new, wt: t, epoch: ex.clocks[t][t], rel: ex.locs[li].rel };
+            ex.locs[li].hist.push(r);
+            ex.locs[li].seen[t] = ex.locs[li].hist.len() - 1;
         }
         OpKind::Rmw | OpKind::CasOk => {
+            // a read-modify-write always reads the newest store
             if acq(so) {
-                if let Some(r) = ex.locs[li].0 {
+                if let Some(r) = ex.locs[li].rel {
                     join(&mut ex.clocks[t], &r);
                 }
             }
             if rel(so) {
                 let c = ex.clocks[t];
-                match ex.locs[li].0.as_mut() {
+                match ex.locs[li].rel.as_mut() {
                     Some(r) => join(r, &c),
-                    None => ex.locs[li].0 = Some(c),
+                    None => ex.locs[li].rel = Some(c),
                 }
             }
-            ex.locs[li].1 = (t, ex.clocks[t][t]);
+            ex.locs[li].last_write = (t, ex.clocks[t][t]);
+            let r = StoreRec { val: new, wt: t, epoch: ex.clocks[t][t], rel: ex.locs[li].rel };
+            ex.locs[li].hist.push(r);
+            ex.locs[li].seen[t] = ex.locs[li].hist.len() - 1;
         }
         OpKind::CasFail => {
             ex.stats.cas_failed += 1;
             if acq(fo) {
-                if let Some(r) = ex.locs[li].0 {
+                if let Some(r) = ex.locs[li].rel {
                     join(&mut ex.clocks[t], &r);
                 }
             }
+            ex.locs[li].seen[t] = ex.locs[li].hist.len() - 1;
         }
         OpKind::GetMut => {
-            let (wt, we) = ex.locs[li].1;
+            let (wt, we) = ex.locs[li].last_write;
             if wt != t && we > ex.clocks[t][wt] {
                 let d = format!("thread {} takes get_mut() of an atomic whose last atomic write by thread {} does not happen-before it", t, wt);
                 ex.viol("C06", "get_mut-races-with-atomic-write", d);
@@ -364,6 +438,7 @@ pub fn after(id: &AtomicU32, addr: usize, kind: OpKind, so: Ordering, fo: Orderi
     if matches!(kind, OpKind::Rmw | OpKind::CasOk | OpKind::Store) && POST_YIELD.load(Ordering::Relaxed) {
         yield_point();
     }
+    observed
 }
 
 pub static POST_YIELD: AtomicBool = AtomicBool::new(true);
@@ -528,6 +603,7 @@ pub fn begin(schedule: Vec<u8>, max_preempt: u32, budget: u64, trace: bool) {
         aborted: false,
         clocks,
         locs: Vec::with_capacity(32),
+        stale_used: 0,
         blocks: Vec::with_capacity(32),
         violations: Vec::new(),
         stats: Stats::default(),
